@@ -223,6 +223,12 @@ impl std::fmt::Write for Sink {
     }
 }
 
+/// `Formatter::pad` without width / precision (the case of `{:?}` and `{:#?}`) is `write_str`; the real
+/// one drags `str::count` (SIMD-style char counting) into the model, which CBMC unwinds hundreds of times.
+fn pad_stub<'a: 'a>(f: &mut std::fmt::Formatter<'a>, s: &str) -> std::fmt::Result {
+    f.write_str(s)
+}
+
 #[cfg(not(test))]
 fn vtrace_dbg() {}
 #[cfg(test)]
@@ -282,6 +288,7 @@ fn debug_body(only: IdK, pretty: bool) -> usize {
 // @timeout 1500
 #[kani::proof]
 #[kani::unwind(32)]
+#[kani::stub(std::fmt::Formatter::pad, pad_stub)]
 fn c12_debug_redacts_id_existing_or_new() {
     let k = if nd::any_bool() { IdK::Existing } else { IdK::NewlyGenerated };
     let n = debug_body(k, false);
@@ -295,6 +302,7 @@ fn c12_debug_redacts_id_existing_or_new() {
 // @timeout 1500
 #[kani::proof]
 #[kani::unwind(32)]
+#[kani::stub(std::fmt::Formatter::pad, pad_stub)]
 fn c12_debug_redacts_id_renamed() {
     let n = debug_body(IdK::ToBeRenamed, false);
     kani::cover!(n > 40, "something was printed");
